@@ -240,7 +240,8 @@ def run(ctx, extra_defs=()):
         if len(ch) != 2:
             return False
         l, r = ch
-        dl = lambda x: q.mentions_field_call(ro, x, 'event_loop_impl::timer_events_', 'begin')
+        # the earliest deadline: timer_events_.begin()->first, possibly through a local iterator initialised from begin()
+        dl = lambda x: any(q.short_of(ro.callee(j)) == 'begin' and (q.obj_field(ro, j) or '').endswith('event_loop_impl::timer_events_') for j in q.expr_calls_deep(ro, x))
         nw = lambda x: bool(ro.subtree_refs(x) & nowv) and not any(ro.N(j)['k'] in ('BinaryOperator', 'CXXOperatorCallExpr', 'CXXMemberCallExpr', 'CallExpr') for j in ro.walk(x))   # the plain time stamp, no slack added
         if dl(r) and nw(l):
             op = {'<': '>', '<=': '>=', '>': '<', '>=': '<='}[op]
@@ -329,7 +330,7 @@ def run(ctx, extra_defs=()):
         n = cnl.N(atom)
         return n['k'] == 'BinaryOperator' and n.get('op') == '==' and pol is True and idp in cnl.subtree_refs(atom)
     g = cnl.gate_edges(idmatch)
-    ctx.check(len(er) == 1 and len(tr) == 1 and cnl.only_through(er[0], g) and q.before(cnl, er[0], tr[0]), R7, 'cancel:true-iff-erased', 'cancel reports success without removing the job (or removes a different job)', cnl.where)
+    ctx.check(len(er) == 1 and len(tr) >= 1 and cnl.only_through(er[0], g) and all(q.true_only_after(cnl, r_, er) for r_ in tr), R7, 'cancel:true-iff-erased', 'cancel reports success without removing the job (or removes a different job)', cnl.where)
     st = P.fn(TP + '::stop')
     w = [i for i in q.field_writes(st, 'thread_pool::shut_down_')]
     nt = [i for i in st.calls() if q.short_of(st.callee(i)) == 'notify_all']
